@@ -3087,10 +3087,10 @@ func (h *ResponseHeader) parseHeaders(buf []byte) (int, error) {
 			if caseInsensitiveCompare(s.key, strConnection) {
 				// Connection options are case-insensitive tokens in a
 				// comma-separated list.
+				// A field without it must not undo an earlier close.
 				if hasHeaderValue(s.value, strClose) {
 					h.connectionClose = true
 				} else {
-					h.connectionClose = false
 					h.h = appendArgBytes(h.h, s.key, s.value, argsHasValue)
 				}
 				continue
@@ -3280,10 +3280,10 @@ func (h *RequestHeader) parseHeaders(buf []byte, blockEnd int) (int, error) {
 			if caseInsensitiveCompare(s.key, strConnection) {
 				// Connection options are case-insensitive tokens in a
 				// comma-separated list.
+				// A field without it must not undo an earlier close.
 				if hasHeaderValue(s.value, strClose) {
 					h.connectionClose = true
 				} else {
-					h.connectionClose = false
 					h.h = appendArgBytes(h.h, s.key, s.value, argsHasValue)
 				}
 				continue
